@@ -133,10 +133,12 @@ BRIDGE_CFG = {
         ("video+reinstall/len4", dict(Sources="SrcTwo", PtAlpha="{0, 96}", Tables="TablesAv", StartTs="StartOne",
                                       Deltas="DeltasTwo", Modes="ModesFixed", MaxLen=4, Video="VideoSome",
                                       Reinstalls="TRUE")),
+        ("target-fails/len4", dict(Sources="SrcTwo", PtAlpha="{0}", Tables="TablesTwo", StartTs="StartOne",
+                                   Deltas="DeltasTwo", Modes="ModesAll", MaxLen=4, Ups="MayFail")),
         # deep random behaviours: TLC prints every continuation of the last step of each simulated behaviour
         ("deep/sim", dict(Sources="SrcTwo", PtAlpha="{0, 96, 101}", Tables="TablesAll", StartTs="StartEdge",
                           Deltas="DeltasFull", Modes="ModesAll", MaxLen=10, sim=(120, 10), Video="VideoSome",
-                          Reinstalls="TRUE")),
+                          Reinstalls="TRUE", Ups="MayFail")),
     ],
     "thorough": [
         ("one-source/len5", dict(Sources="SrcOne", PtAlpha="{0, 101}", Tables="TablesQuick", StartTs="StartWrap",
@@ -149,7 +151,9 @@ BRIDGE_CFG = {
                             Deltas="DeltasSmall", Modes="ModesAll", MaxLen=4)),
         ("deep/sim", dict(Sources="SrcTwo", PtAlpha="{0, 96, 101}", Tables="TablesAll", StartTs="StartEdge",
                           Deltas="DeltasFull", Modes="ModesAll", MaxLen=16, sim=(2500, 16), Video="VideoSome",
-                          Reinstalls="TRUE")),
+                          Reinstalls="TRUE", Ups="MayFail")),
+        ("target-fails/len5", dict(Sources="SrcTwo", PtAlpha="{0, 96}", Tables="TablesAll", StartTs="StartOne",
+                                   Deltas="DeltasTwo", Modes="ModesFixed", MaxLen=5, Ups="MayFail", Video="VideoSome")),
         ("video+reinstall/len5", dict(Sources="SrcTwo", PtAlpha="{0, 96, 101}", Tables="TablesAll", StartTs="StartOne",
                                       Deltas="DeltasTwo", Modes="ModesFixed", MaxLen=5, Video="VideoSome",
                                       Reinstalls="TRUE")),
@@ -176,6 +180,7 @@ CONSTANTS
   Pin = 2147483600
   VideoPts <- {c.get('Video', 'NoVideo')}
   Reinstalls = {c.get('Reinstalls', 'FALSE')}
+  Ups <- {c.get('Ups', 'AlwaysUp')}
   MaxLen = {c['MaxLen']}
 INVARIANTS TypeOK StableMap
 PROPERTIES {BRIDGE_PROPS}
